@@ -45,6 +45,17 @@ def _grid(kind):
         return pp.CartGrid([3, 2])
     if kind == "cart3d":
         return pp.CartGrid([2, 1, 1])
+    if kind == "concave":
+        # two concave cells and a convex one (consistently oriented); the vertex-average centre of the concave
+        # cells lies outside their kernel, so some sub-triangle areas are negative
+        import scipy.sparse as sps_
+
+        nodes = np.array([[0, 0.5, 1, 0.5, 0.5, 0.5], [0, 0.5, 0, 1, -0.5, -1], np.zeros(6)])
+        fn = sps_.csc_matrix((np.ones(16), np.array([0, 1, 1, 2, 2, 3, 3, 0, 0, 5, 5, 2, 2, 4, 4, 0]),
+                              np.arange(0, 17, 2)))
+        cf = sps_.csc_matrix((np.array([1, 1, 1, 1, -1, -1, -1, -1, 1, 1, 1, 1]),
+                              (np.array([0, 1, 2, 3, 7, 6, 1, 0, 4, 5, 6, 7]), np.repeat(np.arange(3), 4))))
+        return pp.Grid(2, nodes, fn, cf, "concave")
     if kind in ("cartflip", "triflip"):
         # same cells, but the node order of every third face is reversed: the face-node ordering no longer
         # forms oriented loops, which sends compute_geometry down its fallback for convex cells
